@@ -298,11 +298,11 @@ func init() {
 }
 
 var c09Tiny = []string{
-	"goroutine 1 [r]:\n",     // 17 bytes: a header-only dump
-	"a\r\n\r\ngoroutine 1",   // CRLF junk and a header fragment
-	"=========\n=======\n",   // separator fragments
-	"x\ngoroutine 9 [x]:",    // unterminated header
-	"goroutine 2 [q]:\r\n",   // CRLF header (18 bytes)
+	"goroutine 1 [r]:\n",   // 17 bytes: a header-only dump
+	"a\r\n\r\ngoroutine 1", // CRLF junk and a header fragment
+	"=========\n=======\n", // separator fragments
+	"x\ngoroutine 9 [x]:",  // unterminated header
+	"goroutine 2 [q]:\r\n", // CRLF header (18 bytes)
 }
 
 const c09Dump = "pre\ngoroutine 7 [chan receive, 2 minutes]:\nmain.f(0xc000012345, {0x1, 0x2})\n\t/a/b.go:12 +0x1f\ncreated by main.g in goroutine 1\n\t/a/c.go:3 +0x2\n\npost\n"
